@@ -28,6 +28,14 @@ RWLOCK_APPEND = (
     "\tpub const unsafe fn raw(&self) -> &R {\n\t\t&self.raw\n\t}\n}\n"
 )
 
+POISONABLE_APPEND = (
+    "\n// ---- appended by /verif (scratch copy only): lets the harness play 'another thread panicked while holding' ----\n"
+    "#[cfg(any(kani, verif_mir, verif_replay))]\n"
+    "impl<L> Poisonable<L> {\n"
+    "\tpub fn verif_poison(&self) {\n\t\tself.poisoned.poison()\n\t}\n"
+    "\tpub fn verif_inner(&self) -> &L {\n\t\t&self.inner\n\t}\n}\n"
+)
+
 _scratch_dirs = []
 
 
@@ -81,6 +89,8 @@ def make_scratch(tag, harness_files, keep=False):
         fh.write(LIB_APPEND)
     with open(os.path.join(d, "src", "rwlock", "rwlock.rs"), "a") as fh:
         fh.write(RWLOCK_APPEND)
+    with open(os.path.join(d, "src", "poisonable", "poisonable.rs"), "a") as fh:
+        fh.write(POISONABLE_APPEND)
     hd = os.path.join(d, "src", "verif_harness")
     os.makedirs(hd)
     shutil.copy(os.path.join(HARNESS_DIR, "env.rs"), os.path.join(hd, "env.rs"))
